@@ -141,11 +141,13 @@ package schema
 //@   assigns nothing
 
 //@ func IntSchema.Validate(i, d) -> err
+//@   ensures err != nil ==> leafCE(err)
 //@   ensures typeOf(d) == type(int64) ==> ((err == nil) == inBoundsI(i.MinValue, i.MaxValue, d.(int64)))
 //@   ensures !asIntOK(d) ==> err != nil
 //@   assigns nothing
 
 //@ func IntSchema.ValidateType(i, data) -> err
+//@   ensures err != nil ==> leafCE(err)
 //@   ensures (err == nil) == inBoundsI(i.MinValue, i.MaxValue, data)
 //@   assigns nothing
 
@@ -170,11 +172,13 @@ package schema
 //@   assigns nothing
 
 //@ func FloatSchema.Validate(f, d) -> err
+//@   ensures err != nil ==> leafCE(err)
 //@   ensures typeOf(d) == type(float64) ==> ((err == nil) == inBoundsF(f.MinValue, f.MaxValue, d.(float64)))
 //@   ensures !asFloatOK(d) ==> err != nil
 //@   assigns nothing
 
 //@ func FloatSchema.ValidateType(f, data) -> err
+//@   ensures err != nil ==> leafCE(err)
 //@   ensures (err == nil) == inBoundsF(f.MinValue, f.MaxValue, data)
 //@   assigns nothing
 
@@ -194,6 +198,7 @@ package schema
 //@   assigns nothing
 
 //@ func StringSchema.ValidateType(s, data) -> err
+//@   ensures err != nil ==> leafCE(err)
 //@   ensures (err == nil) == strOK(s, data)
 //@   ensures err != nil ==> isCE(err) && fresh(err)
 //@   assigns nothing
@@ -207,6 +212,7 @@ package schema
 //@   assigns nothing
 
 //@ func StringSchema.Validate(s, d) -> err
+//@   ensures err != nil ==> leafCE(err)
 //@   ensures typeOf(d) == type(string) ==> ((err == nil) == strOK(s, d.(string)))
 //@   ensures !asStringOK(d) ==> err != nil
 //@   assigns nothing
@@ -236,12 +242,14 @@ package schema
 //@   assigns nothing
 
 //@ func IntSchema.Unserialize(i, data) -> res, err
+//@   ensures err != nil ==> leafCE(err)
 //@   ensures typeOf(data) == type(int64) ==> ((err == nil) == inBoundsI(i.MinValue, i.MaxValue, data.(int64))) && (err == nil ==> res == data)
 //@   ensures err == nil ==> typeOf(res) == type(int64) && inBoundsI(i.MinValue, i.MaxValue, res.(int64))
 //@   ensures typeOf(data) == type(uint64) && data.(uint64) > 9223372036854775807 ==> err != nil
 //@   assigns nothing
 
 //@ func IntSchema.UnserializeType(i, data) -> res, err
+//@   ensures err != nil ==> leafCE(err)
 //@   ensures typeOf(data) == type(int64) ==> ((err == nil) == inBoundsI(i.MinValue, i.MaxValue, data.(int64))) && (err == nil ==> res == data.(int64))
 //@   ensures err == nil ==> inBoundsI(i.MinValue, i.MaxValue, res)
 //@   assigns nothing
@@ -265,11 +273,13 @@ package schema
 //@   assigns nothing
 
 //@ func FloatSchema.Unserialize(f, data) -> res, err
+//@   ensures err != nil ==> leafCE(err)
 //@   ensures typeOf(data) == type(float64) ==> ((err == nil) == inBoundsF(f.MinValue, f.MaxValue, data.(float64))) && (err == nil ==> res == data)
 //@   ensures err == nil ==> typeOf(res) == type(float64) && inBoundsF(f.MinValue, f.MaxValue, res.(float64))
 //@   assigns nothing
 
 //@ func FloatSchema.UnserializeType(f, data) -> res, err
+//@   ensures err != nil ==> leafCE(err)
 //@   ensures typeOf(data) == type(float64) ==> ((err == nil) == inBoundsF(f.MinValue, f.MaxValue, data.(float64))) && (err == nil ==> same(res, data.(float64)))
 //@   ensures err == nil ==> inBoundsF(f.MinValue, f.MaxValue, res)
 //@   assigns nothing
@@ -281,17 +291,20 @@ package schema
 //@   assigns nothing
 
 //@ func StringSchema.UnserializeType(s, data) -> res, err
+//@   ensures err != nil ==> leafCE(err)
 //@   ensures typeOf(data) == type(string) ==> ((err == nil) == strOK(s, data.(string))) && (err == nil ==> res == data.(string))
 //@   ensures err == nil ==> strOK(s, res)
 //@   assigns nothing
 
 //@ func StringSchema.Unserialize(s, data) -> res, err
+//@   ensures err != nil ==> leafCE(err)
 //@   ensures typeOf(data) == type(string) ==> ((err == nil) == strOK(s, data.(string))) && (err == nil ==> res == data)
 //@   ensures err == nil ==> typeOf(res) == type(string) && strOK(s, res.(string))
 //@   assigns nothing
 
 //@ spec bool01(v int64) bool = v == 0 || v == 1
 //@ func BoolSchema.Unserialize(b, data) -> res, err
+//@   ensures err != nil ==> leafCE(err)
 //@   ensures typeOf(data) == type(bool) ==> err == nil && res == data
 //@   ensures typeOf(data) == type(string) ==> ((err == nil) == (str_tolower(data.(string)) in boolStringValues)) && (err == nil ==> res == any(boolStringValues[str_tolower(data.(string))]))
 //@   ensures typeOf(data) == type(int64) ==> ((err == nil) == bool01(data.(int64))) && (err == nil ==> res == any(data.(int64) == 1))
@@ -340,14 +353,14 @@ package schema
 
 //@ func AbstractListSchema.Validate(l, data) -> err
 //@   ensures (err == nil) == (kindOf(data) == KindSlice && sizeOK(l.MinValue, l.MaxValue, listLen(data)) && (forall j int :: 0 <= j && j < listLen(data) ==> validOK(l.ItemsValue, listItem(data, j))))
-//@   ensures err != nil && kindOf(data) == KindSlice && sizeOK(l.MinValue, l.MaxValue, listLen(data)) ==> 0 <= i && i < listLen(data) && !validOK(l.ItemsValue, listItem(data, i)) && (forall j int :: 0 <= j && j < i ==> validOK(l.ItemsValue, listItem(data, j)))
-//@   ensures err != nil && kindOf(data) == KindSlice && sizeOK(l.MinValue, l.MaxValue, listLen(data)) ==> err == addedSeg(validErr(l.ItemsValue, listItem(data, i)), sprintf1("[%d]", i))
+//@   checks err != nil && kindOf(data) == KindSlice && sizeOK(l.MinValue, l.MaxValue, listLen(data)) ==> 0 <= i && i < listLen(data) && !validOK(l.ItemsValue, listItem(data, i)) && (forall j int :: 0 <= j && j < i ==> validOK(l.ItemsValue, listItem(data, j)))
+//@   checks err != nil && kindOf(data) == KindSlice && sizeOK(l.MinValue, l.MaxValue, listLen(data)) ==> err == addedSeg(validErr(l.ItemsValue, listItem(data, i)), sprintf1("[%d]", i))
 //@   ensures err != nil && !(kindOf(data) == KindSlice && sizeOK(l.MinValue, l.MaxValue, listLen(data))) ==> leafCE(err)
 //@   loop 1 invariant 0 <= i && forall j int :: 0 <= j && j < i ==> validOK(l.ItemsValue, listItem(data, j))
 
 //@ func AbstractListSchema.Unserialize(l, data) -> res, err
 //@   ensures (err == nil) == (kindOf(data) == KindSlice && sizeOK(l.MinValue, l.MaxValue, listLen(data)) && (forall j int :: 0 <= j && j < listLen(data) ==> unserOK(l.ItemsValue, listItem(data, j))))
-//@   ensures err != nil && kindOf(data) == KindSlice && sizeOK(l.MinValue, l.MaxValue, listLen(data)) ==> 0 <= i && i < listLen(data) && !unserOK(l.ItemsValue, listItem(data, i)) && (forall j int :: 0 <= j && j < i ==> unserOK(l.ItemsValue, listItem(data, j))) && err == addedSeg(unserErr(l.ItemsValue, listItem(data, i)), sprintf1("[%d]", i))
+//@   checks err != nil && kindOf(data) == KindSlice && sizeOK(l.MinValue, l.MaxValue, listLen(data)) ==> 0 <= i && i < listLen(data) && !unserOK(l.ItemsValue, listItem(data, i)) && (forall j int :: 0 <= j && j < i ==> unserOK(l.ItemsValue, listItem(data, j))) && err == addedSeg(unserErr(l.ItemsValue, listItem(data, i)), sprintf1("[%d]", i))
 //@   ensures err != nil && !(kindOf(data) == KindSlice && sizeOK(l.MinValue, l.MaxValue, listLen(data))) ==> leafCE(err)
 //@   loop 1 invariant 0 <= i && forall j int :: 0 <= j && j < i ==> unserOK(l.ItemsValue, listItem(data, j))
 
